@@ -394,7 +394,13 @@ class Scheduler:
                 task.last_op[key] = op
                 # an asynchronous exception can only surface at an eval-breaker check
                 can_raise = op in SAFE or (prev is not None and prev in _CALL_OPS)
-                sched.yield_point(can_raise=can_raise, engine=True)
+                try:
+                    sched.yield_point(can_raise=can_raise, engine=True)
+                except SchedAbort:
+                    # never raise the abort out of a trace callback (CPython 3.12.1 crashed when
+                    # we did): the aborted task free-runs to its next model-primitive operation,
+                    # which raises SchedAbort from ordinary code.
+                    pass
             elif event == "return":
                 task.last_op.pop(id(frame), None)
             return local
